@@ -330,6 +330,50 @@ def run_concurrent(ctx):
     core.run_family(ctx, fam, inputs=inputs)
 
 
+class ViaBulk(Fam):
+    """the same distance through the bulk entry points, the second set sitting in a plain list BEHIND a narrower-typed dummy (the list's first
+    element decides nothing): one-against-many and matrix forms must report the correctly rounded ratio of the pair"""
+    name = 'via-bulk-functions'
+    exhaustive = True
+    rule = ('pairs (A, B) with B holding values >= 2^16 (u4) or >= 2^32 (u8), congruent to A\'s values modulo the narrower width, B placed second in a plain list whose '
+            'first element is a narrow (u2 / u4) dummy: jaccarddist_matrix with two queries and jaccarddist_array')
+
+    def inputs(self, ctx):
+        for (narrow, wide, mod) in (('u2', 'u4', 1 << 16), ('i2', 'u4', 1 << 16), ('u4', 'u8', 1 << 32), ('u2', 'i8', 1 << 32)):
+            small = [0, 5, 9]
+            big = small + [mod + v for v in small]
+            for ma in range(1, 8):
+                for mb in range(1, 64):
+                    if (ma + mb) % (1 if ctx.tier == 'thorough' else 3):
+                        continue
+                    yield dict(a=[small[i] for i in range(3) if (ma >> i) & 1], b=[big[i] for i in range(6) if (mb >> i) & 1], dta=narrow, dtb=wide)
+
+    def execute(self, inp):
+        from gambit.metric import jaccarddist_array, jaccarddist_matrix
+        ra, rb = ranks(inp['a'], inp['b'])
+        r = dict(op='set', a=ra, b=rb, dta=inp['dta'], dtb=inp['dtb'], ok=False, err='')
+        z = f32_fields(0.0)
+        r.update(dab=z, dba=z, jab=fix47(0.0), jba=fix47(0.0))
+        try:
+            a = np.array(inp['a'], dtype=inp['dta']); b = np.array(inp['b'], dtype=inp['dtb'])
+            dummy = np.array([1, 2], dtype=inp['dta'])
+            m = jaccarddist_matrix([a, a], [dummy, b])
+            arr = jaccarddist_array(a, [dummy, b])
+            r['dab'] = f32_fields(m[0][1]) if float(m[0][1]) == float(m[1][1]) else f32_fields(np.float32(-1))
+            r['dba'] = f32_fields(arr[1])
+            r['jab'] = fix47(jaccard(a, b)); r['jba'] = fix47(jaccard(b, a))
+            r['ok'] = True
+        except Exception as e:
+            r['err'] = type(e).__name__
+        return r
+
+    def nontrivial(self, inp, rec):
+        return core.short_hash(inp) if set(inp['a']) & set(inp['b']) else None
+
+    def describe(self, inp, rec):
+        return f"a={inp['a']} b={inp['b']} dtypes={inp['dta']},{inp['dtb']}"
+
+
 class LongIntervals(Fam):
     """signatures of 2^12 .. 2^20 (thorough 2^23) k-mers, lengths at and next to powers of two: the sets are unions of intervals, shipped to
     TLC as interval lists (cardinalities by arithmetic)"""
@@ -377,7 +421,7 @@ class LongIntervals(Fam):
         return f"{inp['shape']} a={inp['a']} b={inp['b']} dtypes={inp['dta']},{inp['dtb']} top={inp['top']}"
 
 
-FAMILIES = [ExhaustiveSubsets, ByteOrder, RandomSets, AliasedViews, LongIntervals]
+FAMILIES = [ExhaustiveSubsets, ByteOrder, RandomSets, AliasedViews, ViaBulk, LongIntervals]
 
 
 def run(ctx):
